@@ -98,6 +98,7 @@ type senderMachine struct {
 	hitMax, hitMin, pacedWait bool
 	appLimitedAcks            int
 	hugeDt, zeroDt            bool
+	mismatchSpin              bool
 	freeRTT, ce               bool
 	sig                       []byte
 }
@@ -387,8 +388,12 @@ func (m *senderMachine) applySend(op SOp) *vf.Verdict {
 				if t == 0 {
 					return vf.Bad(sigTUSZero, "HasPacingBudget(now)=false but TimeUntilSend()=0 %s", m.describe())
 				}
-			} else {
-				m.u.Class("sender-mds-above-pacer-mds")
+			} else if t == 0 || t <= m.now {
+				// observation, not decided here: the sender was built with a datagram size above the pacer's fixed
+				// initial 1280 and SetMaxDatagramSize has not been called yet; HasPacingBudget wants one sender-size
+				// datagram, TimeUntilSend answers for a 1280-byte one (zero or a deadline that has already passed),
+				// so the connection's pacing timer would fire immediately and spin until the difference is refilled
+				m.mismatchSpin = true
 			}
 			if t > maxClock {
 				break
@@ -586,7 +591,8 @@ func (m *senderMachine) Finish(u *vf.Unit) *vf.Verdict {
 		{"grew-cong-avoid", m.grewCA}, {"reduction", m.reductions > 0}, {"reductions>=2", m.reductions >= 2}, {"rto", m.rtos > 0},
 		{"mtu-increase", m.mtus > 0}, {"hit-max-window", m.hitMax}, {"hit-min-window", m.hitMin}, {"paced-wait", m.pacedWait},
 		{"app-limited-ack", m.appLimitedAcks > 0}, {"clock-step>=30s", m.hugeDt}, {"clock-step-0", m.zeroDt}, {"free-rtt-sample", m.freeRTT},
-		{"ecn-ce", m.ce}, {"sends>=100", len(m.iv.recs) >= 100}} {
+		{"ecn-ce", m.ce}, {"sends>=100", len(m.iv.recs) >= 100},
+		{"obs:pacing-deadline-not-in-future-while-no-budget(sender-mds>pacer-mds)", m.mismatchSpin}} {
 		if c.b {
 			u.Class(c.n)
 		}
